@@ -319,14 +319,16 @@ def unit_interp_generic(method):
 class _KSeq(object):
     """the slope vector: result of the recorded product (solved matrix) @ y"""
 
-    def __init__(self, F):
-        self.decl = F
+    def __init__(self, F, lead=()):
+        from pydv import lam
+        self.decl, self.lead = F, tuple(lead)
+        lam.POSARG[F.name()] = len(self.lead)
 
     def __getitem__(self, i):
-        return self.decl(i if isinstance(i, z3.ExprRef) else z3.IntVal(i), z3.IntVal(0))
+        return self.decl(*(self.lead + (i if isinstance(i, z3.ExprRef) else z3.IntVal(i), z3.IntVal(0))))
 
 
-def any_size_slope_conditions(c, tag, bc, x, y, n, funcs, periodic_values=True):
+def any_size_slope_conditions(c, tag, bc, x, y, n, funcs, periodic_values=True, lead=()):
     """EVERY number of knots (LAM domain): the slopes K = R y, with R the recorded solution of  S R = M  built by the real
     _get_spline_mat_inv on knots of symbolic length, make S'' continuous at every interior knot and satisfy the boundary
     condition.  Row i of  S K = M y  (matrix associativity, trusted) is written out from the few non-zero columns of the
@@ -343,13 +345,15 @@ def any_size_slope_conditions(c, tag, bc, x, y, n, funcs, periodic_values=True):
     R = rec["R"]
     gi, gc = z3.Int("gK"), z3.Int("gKc")
     Kf = None
+    lead = tuple(lead)
     for sr in c.ghost.get("lam_sums", []):
-        if len(sr["out_shape"]) == 2 and z3.eq(z3.simplify(sr["summand"]((gi, z3.IntVal(0)), gc)), z3.simplify(R(gi, gc) * y.fn((gc,)))):
+        if len(sr["out_shape"]) == 2 + len(lead) and z3.eq(z3.simplify(sr["summand"](lead + (gi, z3.IntVal(0)), gc)),
+                                                          z3.simplify(R(gi, gc) * y.fn((gc,)))):
             Kf = sr["f"]
     c.check(tag + ":slopes_are_the_solved_matrix_times_the_sample_values", Kf is not None)
     if Kf is None:
         return None
-    K = _KSeq(Kf)
+    K = _KSeq(Kf, lead)
     X, Y = A.Seq(lambda i: x.fn((i,))), A.Seq(lambda i: y.fn((i,)))
     fs = dict(funcs)
     fs[Kf.name()] = Kf
